@@ -4,6 +4,7 @@ import (
 	"encoding/json"
 	"fmt"
 	"strings"
+	"time"
 
 	"verif/harness/internal/core"
 	"verif/harness/internal/fsnap"
@@ -106,6 +107,16 @@ func C15(c *core.Ctx, replay string) {
 				return
 			}
 		}
+		// a retention that runs out between the read-write pass and the read-only pass: a read
+		// that tidies up expired lock state would change the storage
+		expiry := time.Now().Add(4 * time.Second)
+		for _, b := range []string{"roa", "rob"} {
+			body := `<Retention xmlns="http://s3.amazonaws.com/doc/2006-03-01/"><Mode>GOVERNANCE</Mode><RetainUntilDate>` + expiry.UTC().Format("2006-01-02T15:04:05Z") + `</RetainUntilDate></Retention>`
+			r := env.Root.Do(s3c.Req{Method: "PUT", Path: "/" + b + "/" + s3c.EncPath(FixKey1), Query: []s3c.KV{{K: "retention"}}, Body: []byte(body)})
+			if !r.OK() {
+				c.Logf("short retention on %s/%s not set: %v", b, FixKey1, r)
+			}
+		}
 		if err := fx.SaveTemplate(); err != nil {
 			c.Inconclusive("template: %v", err)
 			env.Close()
@@ -160,6 +171,9 @@ func C15(c *core.Ctx, replay string) {
 		roots := map[string]string{"root": cfg.Root, "versions": cfg.VersioningDir}
 		if cfg.SidecarDir != "" {
 			roots["sidecar"] = cfg.SidecarDir
+		}
+		if d := time.Until(expiry.Add(1200 * time.Millisecond)); d > 0 {
+			time.Sleep(d)
 		}
 		before := fsnap.Take(roots, fsnap.Opts{})
 		for _, v := range vecs {
